@@ -135,6 +135,9 @@ def check_property(prop, tier, repo, record=False, verbose=False):
     undec_targets = [u["function"] for u in rep["undecided"]]
     for mname in missing:
         undec_targets.append("obligation:" + mname)
+    for o in undecided:
+        # solver-unknown obligations (e.g. a change whose counter-model the string solvers do not find)
+        undec_targets.append("obligation:" + o.name)
     seen_fn = set()
     for tgt in undec_targets:
         fn = RP.function_of(tgt, rep["world"])
